@@ -37,8 +37,11 @@ struct Gen {
 		int n = r.range(1, maxn), m = r.range(r.chance(1, 12) ? 0 : 1, maxm);
 		int fam = (int)r.below(10);   // 0-3 feasible generic, 4 degenerate, 5 infeasible, 6 barely infeasible, 7 lower-dimensional face, 8 near-parallel, 9 unbounded-leaning
 		std::vector<Q> x0(n); std::vector<Num> lo(n), up(n);
+		// one LP in eight has names long enough for the writers to wrap objective and constraint lines
+		bool longnames = r.chance(1, 8);
+		auto tail = [&]() { std::string t = "_"; int len = r.range(20, 90); for (int q = 0; q < len; q++) t.push_back("abcdefghijklmnopqrstuvwxyzABCDEFXYZ_"[r.below(36)]); return t; };
 		for (int j = 0; j < n; j++) {
-			PlanCol c; c.name = strf("x%d", j); if (r.chance(1, 10)) c.name = strf("v_%d", j);
+			PlanCol c; c.name = strf("x%d", j); if (r.chance(1, 10)) c.name = strf("v_%d", j); if (longnames) c.name += tail();
 			c.obj = r.chance(1, 6) ? "0" : num();
 			int bt = (int)r.below(fam == 9 ? 5 : 8);   // bound type
 			Q a, b; parse_q(num(), a); parse_q(pos(), b);
@@ -67,7 +70,7 @@ struct Gen {
 		}
 		int density = r.range(25, 90);
 		for (int i = 0; i < m; i++) {
-			PlanRow R; R.name = strf("r%d", i); if (r.chance(1, 10)) R.name = strf("con_%d", i);
+			PlanRow R; R.name = strf("r%d", i); if (r.chance(1, 10)) R.name = strf("con_%d", i); if (longnames && r.chance(1, 2)) R.name += tail();
 			Q act = 0;
 			bool empty = r.chance(1, 25);
 			if (fam == 8 && i > 0 && r.chance(1, 2)) {   // near-parallel to the previous row: differs far below double precision
@@ -211,6 +214,30 @@ void profile_hist(Gen &g, bool invalid_heavy, bool copy_heavy) {
 	p.knobs["indep"] = copy_heavy ? (r.chance(1, 2) ? "2" : "1") : "1";
 }
 
+// resolve: one object, tight alternation of direct (warm-started) solves and small edits (C05, C17): everything the
+// simplex keeps between calls - LU factors, basis, pricing norms, work arrays - meets a problem that changed under it
+void profile_resolve(Gen &g) {
+	Plan &p = g.p; Rng &r = g.r;
+	p.lps.push_back(g.gen_lp(0, g.longrun ? 9 : 6, g.longrun ? 9 : 6));
+	Op cr = g.gen_create(0, 1); if (cr.s("how") == "empty") g.set(cr, "how", "load"); p.ops.push_back(cr);
+	int np = r.range(0, 2); for (int k = 0; k < np; k++) { Op o = g.gen_param(0); g.seti(o, "o", 0); p.ops.push_back(o); }
+	int rounds = g.longrun ? r.range(10, 40) : r.range(2, 8);
+	auto direct = [&]() { Op o = g.gen_solve(0, r.chance(1, 8) ? "exact" : r.chance(1, 2) ? "primal" : "dual"); g.seti(o, "o", 0); o.a.erase("warm"); return o; };
+	p.ops.push_back(direct());
+	for (int k = 0; k < rounds; k++) {
+		int ne = r.chance(2, 3) ? 1 : r.range(2, 3);
+		for (int e = 0; e < ne; e++) { Op ed = g.gen_edit(0); g.seti(ed, "o", 0);
+			if (r.chance(1, 2)) { static const char *w[] = {"chgcoef", "chgcoef", "chgcoef", "chgobj", "chgrhs", "chgbound", "chgsense", "chgrange"}; Op e2 = g.mk(0, "edit"); g.seti(e2, "o", 0); std::string what = w[r.below(8)]; g.set(e2, "what", what);
+				g.seti(e2, "i", r.below(30)); g.seti(e2, "j", r.below(30)); g.set(e2, "v", r.chance(1, 6) ? "0" : what == "chgrange" ? g.pos() : g.num()); g.set(e2, "lu", std::string(1, "LUB"[r.below(3)])); g.set(e2, "sense", std::string(1, "LGER"[r.below(4)])); ed = e2; }
+			p.ops.push_back(ed); }
+		if (r.chance(1, 8)) { Op o = g.gen_param(0); g.seti(o, "o", 0); p.ops.push_back(o); }
+		Op s = direct(); if (g.faults && r.chance(1, 4)) g.add_interruption(s); p.ops.push_back(s);
+		if (r.chance(1, 5) && g.ok("tableau")) { Op t = g.mk(0, "tableau"); g.seti(t, "o", 0); p.ops.push_back(t); }
+		if (r.chance(1, 10) && g.ok("pivotin")) { Op o = g.mk(0, "pivotin"); g.seti(o, "o", 0); g.set(o, "what", r.chance(1, 2) ? "row" : "col"); g.seti(o, "a", r.below(50)); g.seti(o, "cnt", r.range(1, 3)); p.ops.push_back(o); }
+	}
+	p.knobs["indep"] = "0";
+}
+
 // one LP, one or two objects, configuration and solves, float faults (C01/C02/C03/C12)
 void profile_solve(Gen &g) {
 	Plan &p = g.p; Rng &r = g.r;
@@ -254,7 +281,7 @@ void profile_config(Gen &g) {
 // io: live objects after histories are written (LP/MPS; path, FILE*, reporter sink; plain/gz/bz2) and read back (C08, C09, C14)
 void profile_io(Gen &g, bool damage_heavy) {
 	Plan &p = g.p; Rng &r = g.r;
-	int nl = r.range(1, 2); for (int k = 0; k < nl; k++) p.lps.push_back(g.gen_lp(k, 6, 6));
+	int nl = r.range(1, 2); for (int k = 0; k < nl; k++) p.lps.push_back(g.gen_lp(k, r.chance(1, 4) ? 10 : 6, 6));
 	p.ops.push_back(g.gen_create(0, nl));
 	int rounds = r.range(2, 6); int nfile = 0;
 	auto io_faults = [&](Op &o, bool writing) {
@@ -298,7 +325,7 @@ void profile_lu(Gen &g) {
 	Plan &p = g.p; Rng &r = g.r;
 	int rounds = r.range(1, 3);
 	for (int k = 0; k < rounds; k++) {
-		Op f = g.mk(0, "lu"); g.set(f, "what", "factor"); g.seti(f, "dim", r.below(14)); g.seti(f, "fam", r.below(6)); g.seti(f, "seed", r.below(100000)); g.seti(f, "num", r.below(3));
+		Op f = g.mk(0, "lu"); g.set(f, "what", "factor"); g.seti(f, "dim", r.below(14)); g.seti(f, "fam", r.below(6)); g.seti(f, "seed", r.below(100000)); g.seti(f, "num", r.below(3)); if (r.chance(1, 3)) g.seti(f, "zeros", r.range(1, 2));
 		if (r.chance(1, 2)) g.seti(f, "etamax", r.range(1, 12)); if (r.chance(1, 3)) g.seti(f, "maxk", r.range(1, 30)); if (r.chance(1, 3)) g.seti(f, "p", r.range(1, 8));
 		if (r.chance(1, 2)) g.seti(f, "densemin", r.range(1, 10)); if (r.chance(1, 2)) g.seti(f, "spacemul", r.below(40)); if (r.chance(1, 3)) g.seti(f, "densefract", r.below(19));
 		p.ops.push_back(f);
@@ -349,6 +376,7 @@ Plan make_plan(const std::string &profile, uint64_t seed, const Args &opts) {
 	else if (profile == "config") profile_config(g);
 	else if (profile == "io") profile_io(g, false);
 	else if (profile == "lu") profile_lu(g);
+	else if (profile == "resolve") profile_resolve(g);
 	else if (profile == "cli") profile_cli(g);
 	else if (profile == "reader") profile_io(g, true);
 	else profile_hist(g, false, false);
